@@ -240,3 +240,17 @@ pub fn w17_wrap_unchecked() {}
 /// let _ = FlatWrap::<FlatVec<u8, u8>, _>::from_wrapped_bytes(bytes);
 /// ```
 pub fn t17_wrap_unchecked() {}
+
+/// C17: a portable C-like enum cannot have a native multi-byte tag either.
+/// ```compile_fail,E0277
+/// use flatty::flat;
+/// #[flat(portable = true, tag_type = "u16")]
+/// enum K { A, B, C }
+/// ```
+pub fn w18_portable_clike_tag() {}
+/// ```no_run
+/// use flatty::flat;
+/// #[flat(portable = true, tag_type = "u8")]
+/// enum K { A, B, C }
+/// ```
+pub fn t18_portable_clike_tag() {}
